@@ -188,10 +188,19 @@ fn fill_thread_stack(
     thread.stack.memory.rva = buffer.position() as u32;
 
     if let Ok((valid_stack_ptr, stack_len)) = dumper.get_stack_info(stack_ptr) {
-        let stack_len = if let MaxStackLen::Len(max_stack_len) = max_stack_len {
-            min(stack_len, max_stack_len)
-        } else {
-            stack_len
+        let (valid_stack_ptr, stack_len) = match max_stack_len {
+            MaxStackLen::Len(max_stack_len) if stack_len > max_stack_len => {
+                // Skip whole chunks of `max_stack_len` bytes below the stack pointer, so that
+                // the shortened region still contains the stack pointer (as Breakpad does).
+                let sp_offset = stack_ptr.saturating_sub(valid_stack_ptr);
+                let skip = if max_stack_len > 0 && sp_offset < stack_len {
+                    sp_offset / max_stack_len * max_stack_len
+                } else {
+                    0
+                };
+                (valid_stack_ptr + skip, min(max_stack_len, stack_len - skip))
+            }
+            _ => (valid_stack_ptr, stack_len),
         };
 
         let mut stack_bytes = PtraceDumper::copy_from_process(
